@@ -185,6 +185,8 @@ impl World {
             "alias" => self.op_alias(kv, stats).await,
             "vpool" => self.op_vpool(kv).await,
             "rpool" => self.op_rpool(kv).await,
+            "dateq" => self.op_dateq(kv).await,
+            "frame1" => self.op_frame1(kv).await,
             "frame" => self.op_frame(kv),
             "invite" => self.op_invite(kv).await,
             _ => return None,
@@ -330,6 +332,8 @@ impl World {
             let selects_json_default = k == "query" && text.split(|c: char| !(c.is_alphanumeric() || c == '_')).any(|t| t == "jd");
             let sig = if err_text.contains("OFFSET") && Self::skip_without_first(&text) {
                 "skip-without-first"
+            } else if err_text.contains("AND") && Self::filter_and_json_filter(&text) {
+                "filter-then-json-filter"
             } else if selects_json_default {
                 "json-default-unclosed-ifnull"
             } else if Self::has_keyword_identifier(&text) {
@@ -360,6 +364,29 @@ impl World {
                         if !arg.starts_with('0') && !group.contains("first ") {
                             return true;
                         }
+                    }
+                }
+            }
+        }
+        false
+    }
+
+    /// some parameter list has both a plain filter and a json filter
+    fn filter_and_json_filter(text: &str) -> bool {
+        let chars: Vec<char> = text.chars().collect();
+        let mut stack: Vec<usize> = vec![];
+        for (i, c) in chars.iter().enumerate() {
+            if *c == '(' {
+                stack.push(i);
+            } else if *c == ')' {
+                if let Some(start) = stack.pop() {
+                    let group: String = chars[start + 1..i].iter().collect();
+                    let items: Vec<&str> = group.split(',').map(|x| x.trim()).collect();
+                    let is_cmp = |x: &&str| x.contains('=') || x.contains('<') || x.contains('>');
+                    let json = items.iter().any(|x| x.contains("->") && is_cmp(x));
+                    let plain = items.iter().any(|x| !x.contains("->") && is_cmp(x));
+                    if json && plain {
+                        return true;
                     }
                 }
             }
@@ -602,6 +629,110 @@ impl World {
             self.flag("json-null-panics-reader", &format!("instance with {} reader threads stopped answering after {} null parameters on a nullable Json field", n, k));
         }
         if alive { "alive".into() } else { "dead".into() }
+    }
+
+    /// `dateq n=<parallelism> k=<requests> d=<date>`: the daily-nodes read a peer can request with its own date
+    async fn op_dateq(&mut self, kv: &HashMap<String, String>) -> String {
+        let (Some(n), Some(k), Some(d)) = (
+            kv.get("n").and_then(|x| x.parse::<usize>().ok()),
+            kv.get("k").and_then(|x| x.parse::<usize>().ok()),
+            kv.get("d").and_then(|x| x.parse::<i64>().ok()),
+        ) else {
+            return "bad-op".into();
+        };
+        if n == 0 || n > 8 || k > 16 {
+            return "bad-op".into();
+        }
+        let Some(svc) = self.start(n).await else { return "no-instance".into() };
+        let _ = svc.mutate("mutate probeinit { Probe { n: 1 } }", None).await;
+        let before = PANICS.load(Ordering::SeqCst);
+        for _ in 0..k {
+            let mut rx = svc.get_room_daily_nodes([7u8; 16], "1.0".to_string(), d).await;
+            let _ = tokio::time::timeout(Duration::from_secs(3), rx.recv()).await;
+        }
+        let alive = Self::probe(&svc, 1).await;
+        if PANICS.load(Ordering::SeqCst) != before {
+            self.flag("date-out-of-range-panics-reader", &format!("a daily-nodes request with date {} panicked a reader thread at {}", d, last_panic()));
+        }
+        if !alive {
+            self.flag("date-out-of-range-panics-reader", &format!("instance with {} reader threads stopped answering after {} daily-nodes requests with date {}", n, k, d));
+        }
+        if alive { "alive".into() } else { "dead".into() }
+    }
+
+    /// `frame1 len=<n> max=<max_buffer_size>`: a real `DiscretEndpoint` on localhost, a QUIC client without any
+    /// credential opens the three streams and announces a first frame of `len` bytes on the event stream
+    /// (endpoint.rs:353-355). Observed: is the connection still open 1.5 s later (the acceptor waits for the
+    /// frame), and did the process' virtual size grow by about `len` (the acceptor allocated it)?
+    async fn op_frame1(&mut self, kv: &HashMap<String, String>) -> String {
+        use discret::verif_hooks::network::endpoint::{build_endpoint, DiscretEndpoint, ServerCertVerifier};
+        use discret::verif_hooks::peer_connection_service::{PeerConnectionMessage, PeerConnectionService};
+        use discret::verif_hooks::security::generate_x509_certificate;
+        use tokio::io::AsyncWriteExt;
+        let (Some(len), Some(max)) = (kv.get("len").and_then(|x| x.parse::<u32>().ok()), kv.get("max").and_then(|x| x.parse::<usize>().ok()))
+        else {
+            return "bad-op".into();
+        };
+        if len > 0x4800_0000 || max >= 0x1000_0000 {
+            return "bad-op".into(); // keep the experiment within what the sandbox can map
+        }
+        fn vmsize_kb() -> u64 {
+            std::fs::read_to_string("/proc/self/status")
+                .ok()
+                .and_then(|s| s.lines().find(|l| l.starts_with("VmSize:")).and_then(|l| l.split_whitespace().nth(1).and_then(|x| x.parse().ok())))
+                .unwrap_or(0)
+        }
+        let (tx, mut rx) = tokio::sync::mpsc::channel::<PeerConnectionMessage>(8);
+        tokio::spawn(async move { while rx.recv().await.is_some() {} });
+        let server = match DiscretEndpoint::start(PeerConnectionService { sender: tx }, max, &[1u8; 33]).await {
+            Ok(s) => s,
+            Err(e) => return format!("err:server:{}", class_of(&e)),
+        };
+        let verifier = ServerCertVerifier::new();
+        let name = verifier.add_valid_certificate(server.ipv4_cert_hash);
+        let client = match build_endpoint("0.0.0.0:0".parse().unwrap(), generate_x509_certificate("client.example.org"), verifier) {
+            Ok(c) => c,
+            Err(e) => return format!("err:client:{}", class_of(&e)),
+        };
+        let addr = format!("127.0.0.1:{}", server.ipv4_port).parse().unwrap();
+        let connecting = match client.connect(addr, &name) {
+            Ok(c) => c,
+            Err(e) => return format!("err:connect:{}", class_of(&e)),
+        };
+        let conn = match tokio::time::timeout(Duration::from_secs(5), connecting).await {
+            Ok(Ok(c)) => c,
+            _ => return "err:handshake".into(),
+        };
+        let vm0 = vmsize_kb();
+        let mut keep = vec![];
+        for flag in [1u8, 2, 3] {
+            let Ok((mut send, recv)) = conn.open_bi().await else { return "err:open_bi".into() };
+            if send.write_u8(flag).await.is_err() {
+                return "err:write".into();
+            }
+            if flag == 3 && send.write_u32(len).await.is_err() {
+                return "err:write".into();
+            }
+            keep.push((send, recv));
+        }
+        tokio::time::sleep(Duration::from_millis(1500)).await;
+        let vm1 = vmsize_kb();
+        let open = conn.close_reason().is_none();
+        let grown = vm1.saturating_sub(vm0) * 1024 >= (len as u64 / 10) * 9 && len >= 0x1000_0000;
+        if open && len as usize > max {
+            self.flag(
+                "unbounded-first-frame",
+                &format!("an unauthenticated client announced a first frame of {} bytes (max_buffer_size {}): the acceptor kept the connection and the process grew by {} MiB",
+                    len, max, vm1.saturating_sub(vm0) / 1024),
+            );
+        }
+        drop(keep);
+        conn.close(0u32.into(), b"done");
+        if open {
+            format!("open grown={}", if grown { 1 } else { 0 })
+        } else {
+            "closed".into()
+        }
     }
 
     // ---------------------------------------------------------------- byte-level exploration (no model verdict)
